@@ -179,6 +179,8 @@ ENUM_GROUPS = {
                '2 namespaces, namespace a: 841 sets with key A: class name C_1 / net/minecraft/unmapped/C_2 / p/C_3 / Real / absent x comment none/c x field absent/f_1/g/f_1+comment/xf_1/unnamed x 14 method variants (absent, m_1, <init>, <clinit>, run, xm_1, m_1+comment, m_1 with parameter p_1 / arg / p_1+comment / p_1 and xp_1, run with p_1, <init> with unnamed parameter, unnamed method with p_1), alone and next to a second class B named C_9 with a field; 3 namespaces (s,a,b): the same 841 sets with placeholders in a and ordinary names in b, filtered by a and by b; 3364 cases. Mapping side only (the diff-side counterpart insert_dummy_and_contract_inner_names is not covered).', timeout=300),
             _t('diff_apply_keeps_parameter_source_names', ['C04'], 'apply_to(A, diff(A,B)) is B or a refusal also when A and B differ in a parameter source name (the .tinydiff format has no column for it)',
                'method ()V m of class A with parameter 0 absent / without source name / source name x / source name y on either side: 16 ordered pairs'),
+            _t('unchanged_names_are_declarations_too', ['C06'], 'a member declared with the same name in both namespaces answers the query and hides a renamed declaration of a farther super type (nearest declaration in declaration order, depth first)',
+               'classes A,B,C,D named in both of 2 namespaces, each declaring field (I,f) / method (()V,m) not at all / with unchanged name / renamed: 81 sets x 4 inheritance graphs x both directions x 4 owners x 6 spellings x field/method'),
             _t('super_class_search_passes_classes_outside_the_set', ['C06'], 'a field or method declared in a super type is found also when intermediate classes of the inheritance chain are missing from the mapping set',
                'chains C < B < A and D < C < B < A with exactly the intermediate classes missing; field f and method m of A; 4 queries'),
             dict(name='canary_must_fail', props=[], canary=True, text='must fail', bound=''),
